@@ -140,7 +140,7 @@ const FINDING_RECORDED_ERROR: &str = "D7b-json-recorded-error";
 const PRELUDE: &str = "\\countdef\\f=9 \\toksdef\\g=9 \\mathchardef\\i=1 \\chardef\\hh=72 \\newInt\\n \\newIntArray\\arr 3 \\newInt\\nx \\newIntArray\\ax 2 \\newInt\\ny \\newIntArray\\ay 1 ";
 
 /// Prints every target. Each item is safe whether or not the name is defined.
-const OBSERVE: &str = ";\\a;\\b;\\c\\hh;\\d\\zz{Z}\\zz;\\e;\\the\\f;\\the\\g;\\h;\\the\\i;\\m12.;\\newname;\\é;\\ab;\\abc;\\firstseeninq;\\me;\\gobble x;\\mp ab;\\mn123456789;\\mh x;\\md xy1.2;\\the\\count0 ;\\the\\count32767 ;\\the\\dimen0 ;\\the\\dimen32767 ;\\the\\skip0 ;\\the\\skip32767 ;\\the\\toks0 ;\\the\\toks255 ;\\the\\catcode0 ;\\the\\catcode127 ;\\the\\catcode128 ;\\the\\catcode1114110 ;\\the\\catcode1114111 ;\\the\\mathcode0 ;\\the\\mathcode127 ;\\the\\mathcode128 ;\\the\\mathcode1114110 ;\\the\\mathcode1114111 ;\\ifeof 0 c\\else o\\fi;\\ifeof 15 c\\else o\\fi;\\rz;\\the\\arr 0 ;\\the\\arr 2 ;\\the\\count32766 ;\\the\\toks254 ;\\the\\catcode129 ;\\the\\count100 ;\\the\\count101 ;\\the\\count102 ;\\the\\count103 ;\\the\\count104 ;\\the\\count105 ;\\the\\count106 ;\\the\\count107 ;\\the\\count108 ;\\the\\count109 ;\\the\\count110 ;\\the\\count111 ;\\the\\count112 ;\\the\\count113 ;\\the\\count114 ;\\the\\count115 ;\\the\\dimen2 ;\\the\\dimen3 ;\\the\\skip2 ;\\the\\skip3 ;\\€;\\😀;\\the\\toks2 ;√;\\ifeof 5 c\\else o\\fi;\\ifeof 6 c\\else o\\fi;\\ifeof 7 c\\else o\\fi;\\mq x;\\the\\n;\\the\\arr 1 ;\\r;\\ifeof 3 c\\else o\\fi;\\the\\count1 ;\\the\\dimen1 ;\\the\\skip1 ;\\the\\toks1 ;\\the\\count5 ;\\the\\toks6 ;\\the\\catcode`\\| ;\\the\\catcode`\\é ;\\the\\mathcode`\\k ;\\the\\mathcode`\\é ;\\the\\endlinechar ;\\the\\globaldefs ;\\the\\year ;\\the\\month ;\\the\\tracingmacros ;\\the\\dumpFormat ;\\the\\dumpValidate ;\\probefont;~;|;\\the\\count2 ;\\the\\count3 ;\\the\\count4 ;\\the\\toks3 ;\\dr 123;\\the\\nx ;\\the\\ny ;\\the\\ax 0 ;\\the\\ax 1 ;\\the\\ay 0 ;!;?;\\ifeof 1 c\\else\\read 1 to \\rd [\\rd]\\fi;\\ifeof 2 c\\else\\read 2 to \\rd [\\rd]\\fi;\\ifeof 4 c\\else\\read 4 to \\rd [\\rd]\\fi;\\ra;\\rb;\\rc;\\da 1a;\\db 1ba2ab;\\dc 1acb2abc;\\dd 1adbc2abcd;\\de 1aebcd2abcde;\\dp xyz1=->2-=>3.;\\dh 12{};";
+const OBSERVE: &str = ";\\a;\\b;\\c\\hh;\\d\\zz{Z}\\zz;\\e;\\the\\f;\\the\\g;\\h;\\the\\i;\\m12.;\\newname;\\é;\\ab;\\abc;\\firstseeninq;\\me;\\gobble x;\\mp ab;\\mn123456789;\\mh x;\\md xy1.2;\\the\\count0 ;\\the\\count32767 ;\\the\\dimen0 ;\\the\\dimen32767 ;\\the\\skip0 ;\\the\\skip32767 ;\\the\\toks0 ;\\the\\toks255 ;\\the\\catcode0 ;\\the\\catcode127 ;\\the\\catcode128 ;\\the\\catcode1114110 ;\\the\\catcode1114111 ;\\the\\mathcode0 ;\\the\\mathcode127 ;\\the\\mathcode128 ;\\the\\mathcode1114110 ;\\the\\mathcode1114111 ;\\ifeof 0 c\\else o\\fi;\\ifeof 15 c\\else o\\fi;\\rz;\\the\\arr 0 ;\\the\\arr 2 ;\\the\\count32766 ;\\the\\toks254 ;\\the\\catcode129 ;\\the\\count100 ;\\the\\count101 ;\\the\\count102 ;\\the\\count103 ;\\the\\count104 ;\\the\\count105 ;\\the\\count106 ;\\the\\count107 ;\\the\\count108 ;\\the\\count109 ;\\the\\count110 ;\\the\\count111 ;\\the\\count112 ;\\the\\count113 ;\\the\\count114 ;\\the\\count115 ;\\the\\dimen2 ;\\the\\dimen3 ;\\the\\skip2 ;\\the\\skip3 ;\\€;\\😀;\\the\\toks2 ;√;\\ifeof 5 c\\else o\\fi;\\ifeof 6 c\\else o\\fi;\\ifeof 7 c\\else o\\fi;\\mq x;\\the\\n;\\the\\arr 1 ;\\r;\\ifeof 3 c\\else o\\fi;\\the\\count1 ;\\the\\dimen1 ;\\the\\skip1 ;\\the\\toks1 ;\\the\\count5 ;\\the\\toks6 ;\\the\\catcode`\\| ;\\the\\catcode`\\é ;\\the\\mathcode`\\k ;\\the\\mathcode`\\é ;\\the\\endlinechar ;\\the\\globaldefs ;\\the\\year ;\\the\\month ;\\the\\day ;\\the\\time ;\\the\\tracingmacros ;\\the\\dumpFormat ;\\the\\dumpValidate ;\\probefont;~;|;\\the\\count2 ;\\the\\count3 ;\\the\\count4 ;\\the\\toks3 ;\\dr 123;\\the\\nx ;\\the\\ny ;\\the\\ax 0 ;\\the\\ax 1 ;\\the\\ay 0 ;!;?;\\ifeof 1 c\\else\\read 1 to \\rd [\\rd]\\fi;\\ifeof 2 c\\else\\read 2 to \\rd [\\rd]\\fi;\\ifeof 4 c\\else\\read 4 to \\rd [\\rd]\\fi;\\ra;\\rb;\\rc;\\da 1a;\\db 1ba2ab;\\dc 1acb2abc;\\dd 1adbc2abcd;\\de 1aebcd2abcde;\\dp xyz1=->2-=>3.;\\dh 12{};";
 
 /// two plain lines first: a restored lexer that forgets it is past its first line merges them
 const FILE_F: &str = "r1\nr2\n{r3\nr4}\nr5\n";
@@ -208,6 +208,29 @@ struct Case {
     final_eol: bool,
     /// false: the VM has no prelude line (bare programs)
     bare: bool,
+    /// continuation run with the strict handlers (undefined control sequence = fatal error)
+    strict: bool,
+}
+
+/// Like vtex::run, but the error is the title followed by the FULL rendered error (source line, column and
+/// annotation of every traced token, stack trace, notes): "same errors" is compared on what a user would see.
+/// Rendering happens here, inside the caller's catch: a panic while tracing is a failure of the continuation.
+fn run_full<Hd: vtex::texlang::vm::Handlers<vtex::HState>>(vm: &mut vtex::Vm, src: &str) -> RunOut {
+    vm.state.env.out.borrow_mut().clear();
+    let _ = vm.push_source("t.tex", src);
+    let r = vm.run::<Hd>();
+    let out = vm.state.env.out.borrow().concat();
+    // The "did you mean \\x?" note of an undefined control sequence picks one of several equally close names in the
+    // subject's hash order: it differs between two fresh VMs as well, so it is not part of "the same error".
+    RunOut { out, err: r.err().map(|e| format!("{}\n{}", e.error.title(), e.to_string().lines().filter(|l| !l.contains("= note: did you mean")).collect::<Vec<_>>().join("\n"))) }
+}
+/// `strict`: an undefined control sequence is the fatal error of the default handlers instead of a recorded `<undef>`
+fn run_src(vm: &mut vtex::Vm, src: &str, strict: bool) -> RunOut {
+    if strict {
+        run_full::<vtex::HStrict>(vm, src)
+    } else {
+        run_full::<vtex::H>(vm, src)
+    }
 }
 
 fn fresh(files: &[(&str, &str)]) -> Box<vtex::Vm> {
@@ -327,7 +350,7 @@ fn execute_case(c: &Case, acc: Option<&mut Acc>) -> Vec<Failure> {
     // single-source run of the whole program
     let whole = vcore::catch(|| {
         let mut vm = fresh(c.files);
-        vtex::run(&mut vm, &join_with(&all, c.eol, c.final_eol))
+        run_src(&mut vm, &join_with(&all, c.eol, c.final_eol), c.strict)
     });
     for k in c.first_boundary..=c.p.len() {
         let p1 = join_with(&all[..k], c.eol, c.final_eol);
@@ -335,7 +358,7 @@ fn execute_case(c: &Case, acc: Option<&mut Acc>) -> Vec<Failure> {
         local.count("checkpoints");
         // P1 in a fresh VM
         let mut vm = fresh(c.files);
-        let o1 = match vcore::catch(|| vtex::run(&mut vm, &p1)) {
+        let o1 = match vcore::catch(|| run_src(&mut vm, &p1, c.strict)) {
             Ok(o) => o,
             Err(p) => {
                 if p.cutoff {
@@ -362,7 +385,7 @@ fn execute_case(c: &Case, acc: Option<&mut Acc>) -> Vec<Failure> {
             restored.push((fmt, vcore::catch(|| vtex::checkpoint(&vm, fmt))));
         }
         // reference: the same VM continues without a checkpoint
-        let reference = vcore::catch(|| vtex::run(&mut vm, &p2));
+        let reference = vcore::catch(|| run_src(&mut vm, &p2, c.strict));
         let reference = match reference {
             Ok(r) => r,
             Err(p) => {
@@ -381,7 +404,9 @@ fn execute_case(c: &Case, acc: Option<&mut Acc>) -> Vec<Failure> {
         // the property's situation. Recorded, never attributed to serialisation.
         if let Ok(w) = &whole {
             let glued = RunOut { out: format!("{}{}", o1.out, reference.out), err: reference.err.clone() };
-            if *w != glued {
+            // (titles only: the rendered source positions legitimately differ between one source and two)
+            let title = |r: &RunOut| r.err.as_ref().map(|e| e.lines().next().unwrap_or("").to_string());
+            if w.out != glued.out || title(w) != title(&glued) {
                 local.count("split_alone_changes_behaviour");
                 local.class(&format!("single-source run differs from the split run without any checkpoint (last line of P1: `{}`)", all[k - 1]));
             }
@@ -412,7 +437,7 @@ fn execute_case(c: &Case, acc: Option<&mut Acc>) -> Vec<Failure> {
                     Err(p) => fails.push(Failure { known: false, boundary: k, format: Some(fmt), expected: "the restored VM can be serialised".into(), observed: p.describe(), note: "panic serialising the restored VM".into() }),
                 }
             }
-            match vcore::catch(|| vtex::run(&mut vm2, &p2)) {
+            match vcore::catch(|| run_src(&mut vm2, &p2, c.strict)) {
                 Ok(got) => {
                     if got != reference {
                         fails.push(Failure { known: false, boundary: k, format: Some(fmt), expected: reference.show(), observed: got.show(), note: "continuation after the checkpoint differs from the continuation without it".into() });
@@ -603,12 +628,12 @@ fn frag_case_v(family: &'static str, alphabet: &[usize], digits: &[u64], json_la
         q.extend((0..c).map(|_| format!("\\fi {BARE_OBSERVE}")));
         q.extend((0..g).map(|_| format!("}}{BARE_OBSERVE}")));
         return Some((
-            Case { family, p, q, first_boundary: 0, json_boundaries: if json_last { (0..=n).collect() } else { vec![] }, files: &[("f.tex", FILE_F)], sel: json!({"alphabet": alphabet, "digits": digits, "json_last": json_last, "eol": v.eol, "final_eol": v.final_eol, "bare": true}), eol: v.eol, final_eol: v.final_eol, bare: true },
+            Case { family, p, q, first_boundary: 0, json_boundaries: if json_last { (0..=n).collect() } else { vec![] }, files: &[("f.tex", FILE_F)], sel: json!({"alphabet": alphabet, "digits": digits, "json_last": json_last, "eol": v.eol, "final_eol": v.final_eol, "bare": true}), eol: v.eol, final_eol: v.final_eol, bare: true, strict: false },
             frs,
         ));
     }
     Some((
-        Case { family, p, q: observer(c, g), first_boundary: 2, json_boundaries: if json_last { vec![n] } else { vec![] }, files: &[("f.tex", FILE_F), ("g.tex", "g1\ng2\n"), ("fé.tex", "é1\n"), ("e.tex", ""), ("b.tex", "  \n")], sel: json!({"alphabet": alphabet, "digits": digits, "json_last": json_last, "eol": v.eol, "final_eol": v.final_eol, "bare": false}), eol: v.eol, final_eol: v.final_eol, bare: false },
+        Case { family, p, q: observer(c, g), first_boundary: 2, json_boundaries: if json_last { vec![n] } else { vec![] }, files: &[("f.tex", FILE_F), ("g.tex", "g1\ng2\n"), ("fé.tex", "é1\n"), ("e.tex", ""), ("b.tex", "  \n")], sel: json!({"alphabet": alphabet, "digits": digits, "json_last": json_last, "eol": v.eol, "final_eol": v.final_eol, "bare": false}), eol: v.eol, final_eol: v.final_eol, bare: false, strict: false },
         frs,
     ))
 }
@@ -676,13 +701,13 @@ fn stream_case(digits: &[u64]) -> Option<Case> {
         }
     }
     let tail = format!("{}[\\x][\\y]\\ifeof 3 c\\else o\\fi \\ifeof 4 c\\else o\\fi ", "}".repeat(depth as usize));
-    Some(Case { family: "open-read-streams", p: seq.iter().map(|s| s.to_string()).collect(), q: vec![tail], first_boundary: 1, json_boundaries: vec![], files: STREAM_FILES, sel: json!({"digits": digits}), eol: "\n", final_eol: true, bare: false })
+    Some(Case { family: "open-read-streams", p: seq.iter().map(|s| s.to_string()).collect(), q: vec![tail], first_boundary: 1, json_boundaries: vec![], files: STREAM_FILES, sel: json!({"digits": digits}), eol: "\n", final_eol: true, bare: false, strict: false })
 }
 
 // ---------------------------------------------------------------- integer parameters at values outside their effective range
 
 /// every integer parameter the stdlib offers (plus an allocated \newInt variable)
-const INT_PARAMS: [&str; 9] = ["\\endlinechar", "\\globaldefs", "\\tracingmacros", "\\year", "\\month", "\\dumpFormat", "\\dumpValidate", "\\n", "\\count1"];
+const INT_PARAMS: [&str; 11] = ["\\endlinechar", "\\globaldefs", "\\tracingmacros", "\\year", "\\month", "\\day", "\\time", "\\dumpFormat", "\\dumpValidate", "\\n", "\\count1"];
 /// both sides of every range in which some parameter has an effect (-1/0, ASCII, one byte, char::MAX, i32)
 const INT_VALUES: [i64; 13] = [-7, -2, -1, 0, 127, 128, 255, 256, 300, 1114111, 1114112, 2147483647, -2147483647];
 
@@ -706,7 +731,82 @@ fn int_param_case(d: &[u64]) -> Case {
         eol: "\n",
         final_eol: true,
         bare: false,
+        strict: false,
     }
+}
+
+// ---------------------------------------------------------------- errors located at tokens that were lexed before the checkpoint
+
+/// (definition stored before the checkpoint, continuation that executes it). Every continuation ends in a fatal
+/// error whose token – or a token of its stack trace / notes – comes from the source text of P1.
+const FAULTY: [(&str, &str); 11] = [
+    ("\\def\\fA{\\undefinedcs}", "\\fA"),
+    ("\\toks5={\\undefinedcs}", "\\the\\toks5 "),
+    ("\\def\\fB{\\count}", "\\fB\\relax"),
+    ("\\def\\fC{\\count1=\\relax}", "\\fC"),
+    ("\\def\\fD{\\global\\relax}", "\\fD"),
+    ("\\def\\fE{\\catcode1114112=11 }", "\\fE"),
+    ("\\def\\fF#1.{#1}", "\\fF abc"),
+    ("\\def\\fG{\\fi}", "\\fG"),
+    // multi-byte text in front of the faulty token on its source line (columns are counted in characters)
+    ("\\def\\fH{é€😀\\undefinedcs}", "\\fH"),
+    // the faulty token sits in a saved outer meaning and is reached after the group closes
+    ("\\def\\fI{\\undefinedcs}{\\def\\fI{ok}", "\\fI}\\fI"),
+    // stored on the second line of a two-line source
+    ("\\count1=1 \n  \\toks5={ab\\count1=\\relax}", "\\the\\toks5 "),
+];
+
+/// digits = [faulty definition, general fragment placed before it (0 = none, k = core fragment k-1)]
+fn faulty_case(d: &[u64], core: &[usize]) -> Option<Case> {
+    let (def, call) = FAULTY[d[0] as usize];
+    let mut p = vec![PRELUDE.to_string()];
+    if d[1] > 0 {
+        let fr = &FRAGS[core[d[1] as usize - 1]];
+        if fr.dg < 0 || fr.dc < 0 {
+            return None;
+        }
+        p.push(fr.text.to_string());
+    }
+    p.push(def.to_string());
+    let n = p.len();
+    Some(Case { family: "stored-faulty-tokens", p, q: vec![call.to_string()], first_boundary: n, json_boundaries: vec![], files: &[("f.tex", FILE_F)], sel: json!({"faulty": d}), eol: "\n", final_eol: true, bare: false, strict: true })
+}
+
+// ---------------------------------------------------------------- code tables: every class of the initial table set to every code
+
+/// (character code, its category code in the initial table)
+const CAT_CLASSES: [(u32, u8); 17] = [(92, 0), (123, 1), (125, 2), (36, 3), (38, 4), (13, 5), (35, 6), (94, 7), (95, 8), (0, 9), (32, 10), (65, 11), (42, 12), (55, 12), (126, 13), (37, 14), (127, 15)];
+/// one character of every class, lexed from source text after the checkpoint (CR, % and DEL on lines of their own: they end the line or the run)
+const LEX_LINES: [&str; 4] = [";A;*;7;~;x^y_z;$;&;#;\u{0}; ;{};\\relax;", ";\r;after CR", ";%;after percent", ";\u{7f};"];
+
+/// digits = [class, code 0..15, form (0 plain, 1 inside an open group)]
+fn catcode_case(d: &[u64]) -> Case {
+    let (ch, _) = CAT_CLASSES[d[0] as usize];
+    let text = format!("{}\\catcode{ch}={} ", if d[2] == 1 { "{" } else { "" }, d[1]);
+    let read = format!(";\\the\\catcode{ch} ;");
+    // DEL last: it is an invalid character (fatal error) unless its code was changed
+    let mut q = vec![read.clone()];
+    q.extend(LEX_LINES[..3].iter().map(|l| l.to_string()));
+    if d[2] == 1 {
+        q.push("}".into());
+        q.push(read);
+        q.extend(LEX_LINES[..3].iter().map(|l| l.to_string()));
+    }
+    q.push(LEX_LINES[3].to_string());
+    Case { family: "code-table-values", p: vec![PRELUDE.to_string(), text], q, first_boundary: 2, json_boundaries: vec![], files: &[("f.tex", FILE_F)], sel: json!({"catcode": d}), eol: "\n", final_eol: true, bare: false, strict: false }
+}
+const MATH_CHARS: [u32; 6] = [0, 48, 65, 97, 127, 128];
+const MATH_VALUES: [u32; 5] = [0, 1, 28672, 28929, 32767];
+/// digits = [character, value, form]
+fn mathcode_case(d: &[u64]) -> Case {
+    let ch = MATH_CHARS[d[0] as usize];
+    let text = format!("{}\\mathcode{ch}={} ", if d[2] == 1 { "{" } else { "" }, MATH_VALUES[d[1] as usize]);
+    let read = format!(";\\the\\mathcode{ch} ;");
+    let mut q = vec![read.clone()];
+    if d[2] == 1 {
+        q.push(format!("}}{read}"));
+    }
+    Case { family: "code-table-values", p: vec![PRELUDE.to_string(), text], q, first_boundary: 2, json_boundaries: vec![], files: &[("f.tex", FILE_F)], sel: json!({"mathcode": d}), eol: "\n", final_eol: true, bare: false, strict: false }
 }
 
 // ---------------------------------------------------------------- the \dump primitive (job.rs: the stdlib's own route to a format file)
@@ -802,8 +902,8 @@ fn dump_case(idx: u64, alphabet: &[usize], digits: &[u64], fmt: usize, acc: &mut
             return;
         }
     };
-    let reference = vcore::catch(|| vtex::run(&mut vm, &q));
-    let got = vcore::catch(|| vtex::run(&mut vm2, &q));
+    let reference = vcore::catch(|| run_src(&mut vm, &q, false));
+    let got = vcore::catch(|| run_src(&mut vm2, &q, false));
     match (reference, got) {
         (Ok(r), Ok(g)) => {
             if r != g {
@@ -829,6 +929,13 @@ fn main() {
             stream_case(&digits)
         } else {
             let alphabet: Vec<usize> = case["sel"]["alphabet"].as_array().map(|a| a.iter().filter_map(|x| x.as_u64().map(|v| v as usize)).collect()).unwrap_or_default();
+            let arr = |k: &str| case["sel"][k].as_array().map(|d| d.iter().filter_map(|x| x.as_u64()).collect::<Vec<u64>>());
+            let core_idx: Vec<usize> = (0..FRAGS.len()).filter(|i| FRAGS[*i].core).collect();
+            let special = arr("faulty").and_then(|d| faulty_case(&d, &core_idx)).or_else(|| arr("catcode").map(|d| catcode_case(&d))).or_else(|| arr("mathcode").map(|d| mathcode_case(&d)));
+            if let Some(c) = special {
+                run_case(0, &c, 1, &mut acc);
+                ctx.finish_replay(acc);
+            }
             if let Some(d) = case["sel"]["int_param"].as_array() {
                 let d: Vec<u64> = d.iter().filter_map(|x| x.as_u64()).collect();
                 run_case(0, &int_param_case(&d), 1, &mut acc);
@@ -986,6 +1093,48 @@ fn main() {
             }
         });
     }
+    // F9: errors of the continuation located at tokens of P1
+    {
+        let corev = core.clone();
+        let n = (FAULTY.len() * (corev.len() + 1)) as u64;
+        ctx.family("stored-faulty-tokens", &format!("{} faulty definitions stored by P1 (undefined control sequence in a macro body / token register / saved outer meaning / after multi-byte text / on a second line, missing number, bad prefix, out-of-range code, runaway delimited argument, stray \\fi), alone or after each of the {} core fragments; checkpoint after P1; the continuation executes the stored tokens under the strict handlers; output and the full rendered error are compared; three formats", FAULTY.len(), corev.len()), n, |idx, acc| {
+            let d = vcore::digits(idx, &[FAULTY.len() as u64, corev.len() as u64 + 1]);
+            match faulty_case(&d, &corev) {
+                None => acc.skipped += 1,
+                Some(case) => {
+                    acc.count("error_after_checkpoint_located_at_token_lexed_before_it");
+                    run_case(idx, &case, 1, acc);
+                    if d[1] == 0 {
+                        acc.sample(idx, || json!({"family": "stored-faulty-tokens", "P": case.p, "continuation": case.q}));
+                    }
+                }
+            }
+        });
+    }
+    // F10: code tables with a non-uniform initial state: every class set to every code (sparse encodings against a default)
+    {
+        let nc = (CAT_CLASSES.len() * 16 * 2) as u64;
+        let nm = (MATH_CHARS.len() * MATH_VALUES.len() * 2) as u64;
+        ctx.family("code-table-values", &format!("\\catcode of one character of each of the {} classes of the initial table (escape, braces, $, &, CR, #, ^, _, NUL, space, letter, other, digit, ~, %, DEL) set to each code 0..15, outside and inside an open group; after the checkpoint \\the\\catcode is read and one character of every class is lexed from source text; \\mathcode of characters {:?} set to {:?}; three formats", CAT_CLASSES.len(), MATH_CHARS, MATH_VALUES), nc + nm, |idx, acc| {
+            let case = if idx < nc {
+                let d = vcore::digits(idx, &[CAT_CLASSES.len() as u64, 16, 2]);
+                if d[1] == 12 && CAT_CLASSES[d[0] as usize].1 != 12 {
+                    acc.count("catcode_set_to_the_type_default_where_initial_table_differs");
+                }
+                catcode_case(&d)
+            } else {
+                let d = vcore::digits(idx - nc, &[MATH_CHARS.len() as u64, MATH_VALUES.len() as u64, 2]);
+                if d[1] == 0 {
+                    acc.count("mathcode_set_to_zero");
+                }
+                mathcode_case(&d)
+            };
+            run_case(idx, &case, 1, acc);
+            if idx % 131 == 60 {
+                acc.sample(idx, || json!({"family": "code-table-values", "P": case.p, "Q": case.q}));
+            }
+        });
+    }
     // F7: the stdlib's own \\dump primitive
     {
         let alphabet = all.clone();
@@ -997,6 +1146,8 @@ fn main() {
     }
 
     for (c, m) in [
+        ("error_after_checkpoint_located_at_token_lexed_before_it", "the continuation raises an error whose token (or a token of its stack trace) was lexed before the checkpoint; the full rendered error is compared"),
+        ("catcode_set_to_the_type_default_where_initial_table_differs", "an ASCII character whose initial category code is not 12 is set to 12 (the type's default) before the checkpoint"),
         ("int_parameter_holds_out_of_range_disabled_value", "an integer parameter holds a value outside the range in which it has an effect (e.g. \\endlinechar=300 or -7) at the checkpoint"),
         ("fresh_vm_checkpointed", "a VM that has not read any input is checkpointed"),
         ("source_without_final_line_terminator", "the last line of each pushed source has no line terminator"),
